@@ -1,6 +1,8 @@
 Require Extraction.
 Require Import ExtrOcamlBasic.
-From Herc Require Import Base.Conv Plumbing.IdStr Plumbing.Identity Plumbing.IdentityMerge.
+From Herc Require Import Base.Conv Plumbing.IdStr Plumbing.Identity Plumbing.IdentityMerge Plumbing.IdentityMailmap.
 Extraction "c16_model.ml" conv_anchor gen_ascii consume_ascii total_ok_ascii same_email_ok_ascii
   description_ok_ascii consume_ok_ascii nobarb merge_identities merge_literal merge_domb
-  mtotal_okb mpointers_okb mcomponents_okb munion_okb str_eqb.
+  mtotal_okb mpointers_okb mcomponents_okb munion_okb str_eqb
+  lower_ascii generate_people_dict generate_people_dict_mm consume sig_string total_okb same_email_okb
+  description_okb description_mm_okb consume_okb mm_domb parse_mailmap id_order.
